@@ -1031,7 +1031,8 @@ func init() {
 		},
 		Run: func(c *lib.Ctx) {
 			debug.SetGCPercent(800)
-			c25Executions = func(n int64) { c.Add("executions", n) }
+			// counts lib's 5x confirmation reruns of failing cases too
+			c25Executions = func(n int64) { c.Add("simulations_incl_confirm_reruns", n) }
 			lib.Cases(c, func(yield func(c25Case) bool) { enumC25(c, yield) }, runC25)
 			simx.ResetGlobals()
 		},
